@@ -65,7 +65,8 @@ int main(void) {
             /* decs <cap> <hex> <in-chunks csv> <out-chunks csv> [trace [fresh]] : ZSTD_decompressStream under a segmentation (lists are cycled) */
             size_t cap = (size_t)strtoull(strtok(NULL, " "), NULL, 10), n; unsigned char* in = zv_unhex(strtok(NULL, " "), &n);
             char* ins = strtok(NULL, " "); char* outs = strtok(NULL, " "); char* tr = strtok(NULL, " "); char* fr = tr ? strtok(NULL, " ") : NULL;
-            ZSTD_DCtx* const dsaved = dctx; if (fr && !strcmp(fr, "fresh")) dctx = ZSTD_createDCtx();   /* a context without buffers left over from earlier lines */
+            ZSTD_DCtx* const dsaved = dctx; if (tr && !strcmp(tr, "fresh")) { fr = tr; tr = NULL; }      /* "fresh" alone: own context, no trace */
+            if (fr && !strcmp(fr, "fresh")) dctx = ZSTD_createDCtx();   /* a context without buffers left over from earlier lines */
             size_t ic[64], oc[64]; int ni = 0, no = 0, ii = 0, oi = 0; char* sv; char* t;
             unsigned char* out = (unsigned char*)malloc(cap ? cap : 1); size_t consumed = 0, produced = 0, r = 1; int calls = 0, idle = 0;
             char zeros[2048]; size_t zl = 0; zeros[0] = 0;
